@@ -74,6 +74,9 @@ def parse_output(out):
             res["main"].append(int(line.split()[1]))
         elif c == "E":
             res["end"] = int(line.split()[1])
+        elif c == "Z":
+            t = line.split()
+            res["dcd_final"] = {"level": t[1], "finite": t[2] == "1", "triggered": t[3] == "1"}
         elif c == "T":
             d = {}
             head, _, first = line.partition(" first=")
